@@ -19,7 +19,8 @@ RULE = ("metamorphic differential on the real gen_params: each seeded base case 
         "(section, atoms, version); (c) after 1-3 other successful or failing gen_params calls in the same process; "
         "(d) twice (files must be byte-identical after the first header line). Canonical output = atoms table + "
         "multiset of interactions + nrexcl + exclusions. non-trivial = base case with >= 2 residues and >= 1 "
-        "transform executed; distinct = hash(files, graph)")
+        "transform executed; distinct = hash(files, graph)"
+        ' Later strata: links that replace an atom type next to links that select by type, definitions rewritten at paths an earlier call had read, the same command in separate interpreters with different string-hash seeds.')
 ASSUMPTIONS = ["'conflict' = two link definitions producing the same (section, ordered atoms, version) key or replacing "
                "the same attribute of the same atom - computed by the C02 reference; conflicting cases are only "
                "relabelled, not permuted",
